@@ -68,6 +68,7 @@ type Filt struct {
 	Ns      int
 	Label   int // -1 none
 	Generic int // -1 none
+	Supp    int // 0 = plain Fetch; n>0 = PartialFetchComparable with projection n-1 (0 ns, 1 label, 2 value)
 }
 type Dep struct {
 	Cid int
@@ -90,7 +91,8 @@ func (f Filt) term() string {
 	case 2:
 		sel = vlib.App("SIndex", vlib.NI(f.Ns))
 	}
-	return vlib.Rec("f_sel", sel, "f_label", vlib.Opt(f.Label >= 0, vlib.NI(f.Label)), "f_generic", vlib.Opt(f.Generic >= 0, vlib.NI(f.Generic)))
+	return vlib.Rec("f_sel", sel, "f_label", vlib.Opt(f.Label >= 0, vlib.NI(f.Label)), "f_generic", vlib.Opt(f.Generic >= 0, vlib.NI(f.Generic)),
+		"f_suppress", vlib.Opt(f.Supp > 0, vlib.NI(f.Supp-1)))
 }
 func (d Dep) term() string { return vlib.Rec("d_id", vlib.NI(d.Cid), "d_filter", d.F.term()) }
 func (o Out) term() string {
@@ -254,7 +256,23 @@ func (p *pipe) fetch(ctx krt.HandlerContext, d Dep) []SObj {
 		g := d.F.Generic
 		opts = append(opts, krt.FilterGeneric(func(a any) bool { return a.(SObj).Val == g }))
 	}
-	r := krt.Fetch(ctx, krt.Collection[SObj](p.S[d.Cid]), opts...)
+	var r []SObj
+	if d.F.Supp > 0 {
+		// PartialFetch: only the projection is visible to the transformation, and updates that leave it unchanged
+		// are suppressed for this dependency
+		n := d.F.Supp - 1
+		r = krt.PartialFetchComparable(ctx, krt.Collection[SObj](p.S[d.Cid]), func(o SObj) SObj {
+			switch n {
+			case 0:
+				return SObj{Key: o.Key, Ns: o.Ns}
+			case 1:
+				return SObj{Key: o.Key, Lab: o.Lab}
+			}
+			return SObj{Key: o.Key, Val: o.Val}
+		}, opts...)
+	} else {
+		r = krt.Fetch(ctx, krt.Collection[SObj](p.S[d.Cid]), opts...)
+	}
 	r = append([]SObj{}, r...)
 	sort.Slice(r, func(i, j int) bool { return r[i].Key < r[j].Key })
 	return r
@@ -532,6 +550,14 @@ func genFilt(r *vlib.Rand) Filt {
 	if r.Chance(35) {
 		f.Generic = r.Intn(4)
 	}
+	if r.Chance(20) {
+		// PartialFetch, well-formed: selects only on what it projects
+		f.Label, f.Generic = -1, -1
+		f.Supp = 1 + r.Intn(3)
+		if f.Sel == 2 {
+			f.Supp = 1
+		}
+	}
 	return f
 }
 
@@ -754,7 +780,19 @@ func progTags(progs map[int]Prog, tg tags) {
 		if id >= 900 {
 			continue
 		}
-		for _, d := range p.Fetches {
+		for j, d := range p.Fetches {
+			if d.F.Supp > 0 {
+				tg["partial-fetch"] = true
+				for j2, d2 := range p.Fetches {
+					if j2 != j && d2.Cid == d.Cid && d2.F.Supp == 0 {
+						if j < j2 {
+							tg["partial-then-full-same-collection"] = true
+						} else {
+							tg["full-then-partial-same-collection"] = true
+						}
+					}
+				}
+			}
 			tg[[]string{"fetch-all", "fetch-keys", "fetch-index"}[d.F.Sel]] = true
 			if d.F.Label >= 0 {
 				tg["filter-label"] = true
@@ -903,6 +941,87 @@ func TestGen(t *testing.T) {
 		}
 		c.FindingOf[id] = finding
 		finish(c, id, p, tg, false)
+	}
+
+	// ---- class D: one input reads the same collection through a PartialFetch and a full Fetch (both orders);
+	// most updates change only the part the projection hides
+	nD := vlib.Scale(12, 200)
+	for n := 0; n < nD; n++ {
+		r := root.Sub()
+		id++
+		if !c.Wanted(id) {
+			continue
+		}
+		progs := baseProgs()
+		pool := map[int][]int{}
+		for a := 1; a <= 3; a++ {
+			k := 1 + r.Intn(3)
+			supp := 1 + r.Intn(2) // ns or label projection: value changes are hidden
+			var sel Filt
+			switch r.Intn(3) {
+			case 0:
+				sel = Filt{Sel: 1, Keys: []int{k}, Label: -1, Generic: -1}
+			case 1:
+				sel = Filt{Sel: 0, Label: -1, Generic: -1}
+			default:
+				sel = Filt{Sel: 2, Ns: 1, Label: -1, Generic: -1}
+				supp = 1
+			}
+			part := sel
+			part.Supp = supp
+			full := sel
+			if r.Chance(40) {
+				full.Generic = r.Intn(3) // the full fetch may also look at the value
+			}
+			var pr Prog
+			if (n+a)%2 == 0 {
+				pr = Prog{Fetches: []Dep{{0, part}, {0, full}}, Outs: []Out{{Kind: 1, J: 0, K: 50 + a, V: 1 + a}, {Kind: 2, J: 1, K: 120 + a}}}
+			} else {
+				pr = Prog{Fetches: []Dep{{0, full}, {0, part}}, Outs: []Out{{Kind: 1, J: 1, K: 50 + a, V: 1 + a}, {Kind: 2, J: 0, K: 120 + a}}}
+			}
+			if r.Chance(30) {
+				pr.Outs = append(pr.Outs, Out{Kind: 3, J: 0, K: 200 + 100*a})
+			}
+			progs[10*a] = pr
+			pool[a] = []int{10 * a}
+		}
+		tg := tags{"class-partial-fetch": true}
+		progTags(progs, tg)
+		p := newPipe(progs)
+		p.owned = true
+		if p.setup() {
+			p.groupWith(0, []op{{Kind: 0, I: IObj{1, 10}}, {Kind: 0, I: IObj{2, 20}}, {Kind: 0, I: IObj{3, 30}}})
+			groups := 8 + r.Intn(5)
+			for g := 0; g < groups && p.failed == ""; g++ {
+				var ops []op
+				for i := 0; i < 1+r.Intn(2); i++ {
+					o := SObj{Key: 1 + r.Intn(3), Val: r.Intn(4), Ns: 1, Lab: 0}
+					switch x := r.Intn(10); {
+					case x < 7: // value-only change (hidden from the projections)
+					case x < 8:
+						o.Ns = r.Intn(2)
+					case x < 9:
+						o.Lab = r.Intn(2)
+					default:
+						ops = append(ops, op{Kind: 4, C: 0, Key: o.Key})
+						continue
+					}
+					ops = append(ops, op{Kind: 3, C: 0, S: o})
+				}
+				p.groupWith(1, ops)
+			}
+		}
+		finish(c, id, p, tg, false)
+	}
+
+	// ---- class E: handlers registering (runExistingState=true) WHILE the collection processes changes
+	nE := vlib.Scale(3, 12)
+	for n := 0; n < nE; n++ {
+		id++
+		if !c.Wanted(id) {
+			continue
+		}
+		runChurn(c, id, vlib.Scale(100, 400))
 	}
 
 	// ---- class C: overlapping keys (outside the property's hypothesis): correspondence only
